@@ -83,6 +83,20 @@ TRun(cfg, blk, h, st) ==
         start == IF st1.synced.has THEN st1.synced.num + 1 ELSE cfg.start0
     IN (IF n > 0 THEN <<st1>> ELSE <<>>) \o TRunRanges(cfg, blk, h, st1, Ranges(start, blk[h].num, cfg.maxr), 1)
 
+(* syncRange when the node's canonical leaf switches from hA to hB right after the k-th RPC call of
+   the range (k >= 1).  The calls, as the code makes them: 1 HeaderByNumber(end); then the
+   processors in Go map order ("rt": registrations then trigger logs, "tr": the other way), the
+   trigger processor making one FilterLogs call per active trigger (at most one trigger here).
+   Call i is served from hA's chain if i <= k, else from hB's.  Header first: the stored hash is hA's. *)
+TStoreMid(cfg, blk, hA, hB, st, lo, hi, k, ord) ==
+    LET active  == {r \in st.regs : r.exp >= lo /\ ~r.dec /\ \A f \in st.fired : f.key # r.key}
+        iRegs   == IF ord = "rt" \/ active = {} THEN 2 ELSE 3
+        iTrig   == IF ord = "rt" THEN 3 ELSE 2
+        ch(i)   == IF i <= k THEN hA ELSE hB
+        newRegs == RegsIn(blk, ch(iRegs), lo, hi)
+        newFired == FiredIn(blk, ch(iTrig), st.regs, st.fired, lo, hi, FALSE)
+    IN TSt(Sy(TRUE, hi, CanonAt(blk, hA, hi)), UpsertRegs(st.regs, newRegs), st.fired \cup newFired)
+
 TFinal(st, seq) == IF Len(seq) = 0 THEN st ELSE seq[Len(seq)]
 
 =============================================================================
